@@ -28,6 +28,8 @@ Statement level (S)
   v = e; S(v)              -> S(e)                v bound once, read once, in the next statement (assignment, return,
                                                   expression statement, if-test, for-iterable) and not under a lambda /
                                                   comprehension: e is assumed free of side effects that S could observe
+  a = b                    -> uses of a read b    both bound once (or b an unmodified parameter), copy at function top level
+Helpers that the reference does not have (a block moved into a new private function) are inlined at statement level first.
 Then locals are numbered in order of first binding (alpha-renaming), and finally (E2) the operands of `*`, `&`, `|`,
 `==`, `!=` and the keywords of every call are sorted (commutative on numbers and arrays; keyword evaluation order assumed
 unobservable).
@@ -462,6 +464,156 @@ class _FoldConst(ast.NodeTransformer):
         return n
 
 
+def _copy_prop(fn):
+    """`a = b` with both names bound exactly once (or b a parameter that is never re-bound): a reads as b."""
+    params = {x.arg for x in fn.args.posonlyargs + fn.args.args + fn.args.kwonlyargs}
+    stores = {}
+    for n in ast.walk(fn):
+        if isinstance(n, ast.Name) and isinstance(n.ctx, (ast.Store, ast.Del)):
+            stores[n.id] = stores.get(n.id, 0) + 1
+        elif isinstance(n, (ast.Global, ast.Nonlocal)):
+            for x in n.names:
+                stores[x] = stores.get(x, 0) + 2
+        elif isinstance(n, ast.arg):
+            pass
+    changed = False
+    for owner in ast.walk(fn):
+        for fld in ('body', 'orelse', 'finalbody'):
+            body = getattr(owner, fld, None)
+            if not (isinstance(body, list) and body and isinstance(body[0], ast.stmt)) or isinstance(owner, ast.Lambda):
+                continue
+            for st in list(body):
+                if isinstance(st, ast.Assign) and len(st.targets) == 1 and isinstance(st.targets[0], ast.Name) and isinstance(st.value, ast.Name):
+                    a, b = st.targets[0].id, st.value.id
+                    if a == b or a in params or stores.get(a) != 1:
+                        continue
+                    if not ((b in params and stores.get(b, 0) == 0) or stores.get(b) == 1):
+                        continue
+                    # the copy must dominate its uses: only top-level statements of the function body are considered
+                    if owner is not fn:
+                        continue
+                    for x in ast.walk(fn):
+                        if isinstance(x, ast.Name) and x.id == a and isinstance(x.ctx, ast.Load):
+                            x.id = b
+                    body.remove(st)
+                    changed = True
+            if not body:
+                body.append(ast.Pass())
+    return changed
+
+
+def inline_new_helpers(fn, resolve, is_new, depth=2):
+    """Statement-level inlining of calls to package helpers that do not exist in the reference (a block that was moved into a new
+    private function).  resolve(call) -> FunctionDef node of the callee or None; is_new(node) -> True when the reference has no
+    function of that name.  Only helpers with plain positional parameters, no nested scopes, no global state and a single return as
+    their last statement (or none) are inlined, at call sites of the forms `T = h(..)`, `return h(..)`, `h(..)`."""
+    counter = [0]
+
+    def inlinable(g):
+        a = g.args
+        if a.vararg or a.kwarg or a.kwonlyargs or a.posonlyargs or g.decorator_list:
+            return False
+        body = list(g.body)
+        if body and isinstance(body[0], ast.Expr) and isinstance(body[0].value, ast.Constant) and isinstance(body[0].value.value, str):
+            body = body[1:]
+        if not body:
+            return False
+        for n in ast.walk(g):
+            if n is not g and isinstance(n, SCOPES + (ast.Global, ast.Nonlocal, ast.Yield, ast.YieldFrom, ast.Await)):
+                return False
+        rets = [n for n in ast.walk(g) if isinstance(n, ast.Return)]
+        if len(rets) > 1 or (rets and rets[0] is not body[-1]):
+            return False
+        return True
+
+    def expand(call, g, how, target):
+        counter[0] += 1
+        tag = '_h%d_' % counter[0]
+        a = g.args
+        params = [x.arg for x in a.args]
+        if any(isinstance(x, ast.Starred) for x in call.args) or any(k.arg is None for k in call.keywords) or len(call.args) > len(params):
+            return None
+        binding = dict(zip(params, call.args))
+        for k in call.keywords:
+            if k.arg not in params or k.arg in binding:
+                return None
+            binding[k.arg] = k.value
+        defaults = dict(zip(params[len(params) - len(a.defaults):], a.defaults))
+        for p_ in params:
+            if p_ not in binding:
+                if p_ not in defaults:
+                    return None
+                binding[p_] = defaults[p_]
+        body = [clone(st) for st in g.body]
+        if body and isinstance(body[0], ast.Expr) and isinstance(body[0].value, ast.Constant) and isinstance(body[0].value.value, str):
+            body = body[1:]
+        locs = set(params) | {n.id for st in body for n in ast.walk(st) if isinstance(n, ast.Name) and isinstance(n.ctx, (ast.Store, ast.Del))}
+        for st in body:
+            for n in ast.walk(st):
+                if isinstance(n, ast.Name) and n.id in locs:
+                    n.id = tag + n.id
+                elif isinstance(n, ast.ExceptHandler) and n.name in locs:
+                    n.name = tag + n.name
+        out = [ast.Assign(targets=[ast.Name(id=tag + p_, ctx=ast.Store())], value=clone(binding[p_])) for p_ in params]
+        last = body[-1] if body else None
+        if isinstance(last, ast.Return):
+            body = body[:-1]
+            val = last.value if last.value is not None else ast.Constant(value=None)
+            if how == 'assign':
+                tail = [ast.Assign(targets=[clone(t) for t in target], value=val)]
+            elif how == 'return':
+                tail = [ast.Return(value=val)]
+            else:
+                tail = [ast.Expr(value=val)] if not isinstance(val, (ast.Name, ast.Constant, ast.Tuple)) else []
+        else:
+            if how == 'assign':
+                tail = [ast.Assign(targets=[clone(t) for t in target], value=ast.Constant(value=None))]
+            elif how == 'return':
+                tail = [ast.Return(value=None)]
+            else:
+                tail = []
+        return out + body + tail
+
+    def process(stmts, d):
+        out = []
+        changed = False
+        for st in stmts:
+            for fld in ('body', 'orelse', 'finalbody'):
+                v = getattr(st, fld, None)
+                if isinstance(v, list) and v and isinstance(v[0], ast.stmt) and not isinstance(st, SCOPES):
+                    nv, ch = process(v, d)
+                    setattr(st, fld, nv)
+                    changed |= ch
+            for h in getattr(st, 'handlers', []) or []:
+                h.body, ch = process(h.body, d)
+                changed |= ch
+            call, how, target = None, None, None
+            if isinstance(st, ast.Assign) and isinstance(st.value, ast.Call):
+                call, how, target = st.value, 'assign', st.targets
+            elif isinstance(st, ast.Return) and isinstance(st.value, ast.Call):
+                call, how = st.value, 'return'
+            elif isinstance(st, ast.Expr) and isinstance(st.value, ast.Call):
+                call, how = st.value, 'expr'
+            rep = None
+            if call is not None and d > 0:
+                g = resolve(call)
+                if g is not None and is_new(g) and inlinable(g):
+                    rep = expand(call, g, how, target)
+            if rep is not None:
+                rep2, _ = process(rep, d - 1)
+                for r_ in rep2:
+                    ast.copy_location(r_, st)
+                    ast.fix_missing_locations(r_)
+                out.extend(rep2)
+                changed = True
+            else:
+                out.append(st)
+        return out, changed
+    c = clone(fn)
+    c.body, ch = process(c.body, depth)
+    return c if ch else fn
+
+
 def normal_form(fn, callee_info=None, consts=None):
     """A normalised private copy of the function definition node fn.  consts: {module-level NAME: python constant}."""
     c = clone(fn)
@@ -480,6 +632,7 @@ def normal_form(fn, callee_info=None, consts=None):
             pass
         while _inline_pass(c):
             pass
+        _copy_prop(c)
         if ast.dump(c) == before:
             break
     _alpha(c)
